@@ -92,6 +92,15 @@ impl ParseData for OuterFrom {
 
     fn validate_body(&self, errors: &mut crate::error::Accumulator) {
         self.container.validate_body(errors);
+
+        // The variants of an enum have already been rejected one by one, but an enum
+        // without variants would otherwise reach code generation, which only handles structs.
+        if let Data::Enum(_) = &self.container.data {
+            errors.push(
+                Error::custom("this trait can only be derived for structs, not enums")
+                    .with_span(&self.container.ident),
+            );
+        }
         if let Some(attrs) = &self.attrs {
             if self.forward_attrs.is_none() {
                 let container_name = match &self.container.data {
